@@ -700,6 +700,9 @@ package mast
 //@ ensures loads [C16] (<= (G.loads H) (+ (G.loads H0) 1))
 //@ ensures res [C01 C10] (=> (= err anil) (and (LinkOK (S_Mast.root result0)) (= (S_Mast.size result0) (Mast.size H0 m)) (= (S_Mast.height result0) (Mast.height H0 m)) (= (S_Mast.branchFactor result0) (Mast.branchFactor H0 m)) (= (S_Mast.keyOrder result0) (Mast.keyOrder H0 m)) (= (S_Mast.keyLayer result0) (Mast.keyLayer H0 m)) (=> (isPtr (S_Mast.root result0)) (Shape H (a.val (S_Mast.root result0))))))
 //@ ensures healthy [C01] (=> healthy (= err anil))
+// the captured version is made of nodes the source tree can no longer write: its top node is
+// shared (copy-on-write from now on) or a fresh private copy
+//@ ensures snapshot [C02] (=> (and (= err anil) (isPtr (S_Mast.root result0))) (or (mastNode.shared H (a.val (S_Mast.root result0))) (> (a.val (S_Mast.root result0)) W0)))
 
 // CursorOK: a cursor's path names node-shaped nodes with valid link indices
 //@ smt (define-fun CursorOK ((h Heap) (c Int)) Bool (and (> c 0) (> (Cursor.m h c) 0) (not (= (Mast.keyOrder h (Cursor.m h c)) 0)) (PathOK h (Cursor.path h c))))
@@ -713,6 +716,9 @@ package mast
 //@ ensures ok [C10] (=> (= err anil) (CursorOK H result0))
 //@ ensures frame [C02 C11 C12] (NodesSame H0 H W0)
 //@ ensures healthy [C01] (=> healthy (= err anil))
+// a cursor works on a captured version (a clone), never on the live nodes of the tree it came from
+//@ ensures snapshot [C02] (=> (and (= err anil) (isPtr (Mast.root H (Cursor.m H result0)))) (or (mastNode.shared H (a.val (Mast.root H (Cursor.m H result0)))) (> (a.val (Mast.root H (Cursor.m H result0))) W0)))
+//@ ensures ownmast [C02] (=> (= err anil) (> (Cursor.m H result0) W0))
 
 //@ func (*Cursor).Get
 //@ tags C01 C10
@@ -1109,7 +1115,7 @@ package mast
 
 //@ abstract NodeCache.Add (c key value) -> ()
 //@ pure
-//@ requires durable [C03 C11] (and (= (a.tid key) tid.string) (isDurable H (unbox_Bytes (a.val key))))
+//@ requires durable [C03 C11 C17] (and (= (a.tid key) tid.string) (isDurable H (unbox_Bytes (a.val key))))
 
 //@ abstract chan.send (ch) -> ()
 //@ pure
@@ -1119,7 +1125,7 @@ package mast
 //@ ensures healthy (=> healthy (= err anil))
 
 //@ func (*mastNode).store$1
-//@ tags C03 C08 C11
+//@ tags C03 C08 C11 C17
 //@ modifies W G.durable Box.Any Arr.Any@fresh
 //@ requires boxes (and (distinct err persist cache) (distinct hash cacheKey) (<= err W) (<= persist W) (<= hash W) (<= encoded W) (<= cache W) (<= cacheKey W) (<= node W) (not (isNil (Box.Any H persist))))
 //@ requires name [C03 C08] (= (Box.Bytes H hash) (nameHash (bs.val (Box.BS H encoded))))
@@ -1184,6 +1190,10 @@ package mast
 //@ modifies W G.durable Box.Any Arr.Any@fresh
 //@ ensures mono (forall ((k Bytes)) (! (=> (isDurable H0 k) (isDurable H k)) :pattern ((isDurable H k))))
 
+// the recorded error is only ever written while it is still nil (checked under the lock): a
+// later success never erases an earlier failure, whatever the other workers did in between
+// (the call of the queued closure havocs every box: that is the interference of other workers)
+//@ guardrule firsterr [C03] comps=Box.Any funcs=(*Mast).flush$1$1 (=> (= r firstStoreError) (isNil oldv))
 // the worker: runs one queued store unless an earlier one failed; the first error sticks
 //@ func (*Mast).flush$1$1
 //@ tags C03 C11
